@@ -27,12 +27,13 @@ SubT == {1, 2, 3, 6}
 NoTx == {}
 NoLists == {}
 NoReorgs == {}
+NoTicks == {}
 NoPrio == {}
 ListsT == { <<1>> }
-PrioQ == {<<5, 700>>}
+PrioQ == {<<5, 700>>, <<1, 300>>}
 PrioT == {<<5, 700>>, <<6, 500>>, <<2, -100>>}
 \* expiry is 1 209 600 s; an entry is reloaded if its time is later than now - expiry
-TicksQ == {1209600}
+TicksQ == {100, 1209600}
 TicksT == {1209500, 100}
 UnbQ == {1}
 UnbT == {1, 3}
@@ -41,7 +42,16 @@ CutsT == CutsQ \cup { Cut("hdr", 0, "ver"), Cut("hdr", 0, "key"), Cut("rec", 0, 
                        Cut("rec", 3, "at"), Cut("rec", 4, "at"), Cut("deltas", 0, "at"), Cut("unb", 0, "mid"), Cut("ver1", 0, "at"), Cut("keyflip", 0, "at"),
                        Cut("count", -1, "at") }
 ExistQ == { <<>>, <<4>> }
-ExistT == { <<>>, <<4>>, <<3>>, <<1>> }
+ExistT == { <<>>, <<4>>, <<1>> }
+\* a pool entry below the minimum relay fee: 6 entered with a prioritisation that was taken back afterwards; Submit would reject it at load
+SubB == {6}
+PrioB == {<<6, 500>>, <<6, -500>>}
+CutsB == { NoCut, Cut("unb", 0, "at"), Cut("count", 1, "at") }
+ExistB == { <<>> }
+ExtB == [ExtNone EXCEPT !.maxdump = 1, !.cuts = CutsB, !.exist = ExistB, !.maxload = 1]
+\* partial expiry: the clock also moves between the submissions
+CutsE == { NoCut, Cut("rec", 1, "at"), Cut("rec", 2, "at"), Cut("unb", 0, "at") }
+ExtE == [ExtNone EXCEPT !.maxdump = 1, !.cuts = CutsE, !.exist = ExistB, !.maxload = 1]
 ExtQ == [ExtNone EXCEPT !.unbs = UnbQ, !.maxunb = 1, !.maxdump = 1, !.cuts = CutsQ, !.exist = ExistQ, !.maxload = 1]
 ExtT == [ExtNone EXCEPT !.unbs = UnbT, !.maxunb = 1, !.maxdump = 1, !.cuts = CutsT, !.exist = ExistT, !.maxload = 1]
 ====
